@@ -324,7 +324,7 @@ def fp_impl(url, strip_suffix=False, platform_aware=False):
     def both():
         t = fingerprint_url(url, unsplit=False, strip_suffix=strip_suffix, platform_aware=platform_aware)
         s = fingerprint_url(url, strip_suffix=strip_suffix, platform_aware=platform_aware)
-        return [list(t), s]
+        return [t if isinstance(t, str) else list(t), s]  # a str: the unparseable url, returned as it is
 
     try:
         prepare(url.lower(), {"platform_aware": platform_aware})
